@@ -541,6 +541,10 @@ class Evaluator:
             return disj([conj([c, ta]), conj([negate(c), tb])])
         if isinstance(v, Sym) and (v.tags & {"rng", "object", "callable", "positive", "nonempty_str", "fresh_rng"}):
             return TRUE
+        if isinstance(v, Sym) and "arraylike" in v.tags:
+            # `if x:` / `x or default` on a caller-supplied array-like: fine for a list, ValueError for an ndarray with 2+ elements, and a
+            # one-element array [0.0] is falsy
+            self.event("raw_sequence_use", value=v, what="truth value (`if x` / `x or ...`: ambiguous for an ndarray of 2+ elements)", node=None)
         if isinstance(v, V):
             p = to_poly(v)
             if p is not None and p.is_const():
@@ -2063,6 +2067,11 @@ class Evaluator:
         return conj(res) if len(res) > 1 else res[0]
 
     def compare(self, op, a, b, node=None):
+        if op not in ("Is", "IsNot", "In", "NotIn"):
+            for x_, y_ in ((a, b), (b, a)):
+                if isinstance(x_, Sym) and "arraylike" in x_.tags and not (isinstance(y_, Sym) and "arraylike" in y_.tags):
+                    # a caller-supplied sequence compared before any numpy conversion: a list / tuple compares as ONE object (a scalar bool)
+                    self.event("raw_sequence_use", value=x_, what="compared with %s before conversion to an array" % getattr(y_, "key", "?")[:40], node=node)
         if op in ("Is", "IsNot"):
             if isinstance(a, Const) and isinstance(b, Const):
                 r = a.value is b.value or (a == b)
